@@ -646,7 +646,38 @@ def h_cjkint(case):
     return {'out': out}
 
 
+def h_modpushpop(case):
+    """BaseMergedParser.parse (en-us) on a constructed entity whose text starts with modifier words (advisory binding of
+    ModPushPop.tla): returns start, length and text of the result"""
+    global _ENMP
+    try:
+        _ENMP
+    except NameError:
+        from recognizers_date_time.date_time.english.merged_parser_config import EnglishMergedParserConfiguration
+        from recognizers_date_time.date_time.english.common_configs import EnglishCommonDateTimeParserConfiguration
+        from recognizers_date_time.date_time.base_merged import BaseMergedParser
+        from recognizers_date_time.date_time.utilities import DateTimeOptions
+        _ENMP = BaseMergedParser(EnglishMergedParserConfiguration(EnglishCommonDateTimeParserConfiguration()), DateTimeOptions.NONE)
+    from recognizers_text.extractor import ExtractResult
+    from recognizers_text.meta_data import MetaData
+    out = []
+    for c in case['items']:
+        x = ExtractResult()
+        x.start, x.length, x.text = c['start'], len(c['text']), c['text']
+        x.type = 'time' if c['text'].endswith('3pm') else 'daterange'
+        x.data = None
+        x.meta_data = MetaData()
+        x.meta_data.has_mod = True
+        try:
+            r = _ENMP.parse(x, parse_ref('2019-03-10T12:00:00'))
+            out.append(None if r is None else [r.start, r.length, r.text, r.value is not None])
+        except Exception as ex:
+            out.append(type(ex).__name__)
+    return {'out': out}
+
+
 _HANDLERS = {
+    'modpushpop': h_modpushpop,
     'cjkint': h_cjkint,
     'digitalvalue': h_digitalvalue,
     'addmod': h_addmod,
